@@ -7,8 +7,7 @@ PID = "C06"
 ALLOWED_AXIOMS = []
 CORRESPONDENCE = "Vm::eval of (builtin args...) sessions, lex::scan, parse::parse_text, sliced evaluation and the highlighter vs the Coq models"
 RULE = ("every registered builtin (names regenerated from vm/builtin/*.rs) x arity 0..5 x an argument palette of "
-        "expressions covering all value kinds and boundary values (quick: a sample per builtin and arity; thorough: the "
-        "full product for arity <= 2 and a sample above), six calls per session in ONE vm followed by the probe (+ 1 2) "
+        "expressions covering all value kinds and boundary values (quick: a sample per builtin and arity; thorough: all values at arity 1, 700 of the palette's pairs per builtin at arity 2, 40 tuples per higher arity), six calls per session in ONE vm followed by the probe (+ 1 2) "
         "= 3 (the vm still works); circular lists / self-containing vectors for list? length equal? display write and as "
         "the value of an evaluation; Unicode text and token soup through scanner, parser, evaluator, sliced evaluator "
         "and highlighter; debug and (thorough) release builds; non-trivial = a builtin call with at least one argument "
@@ -22,6 +21,7 @@ CASES_PER_SHARD = 60
 SHARD_TIMEOUT = {"quick": 120, "thorough": 600}
 PROFILES = ["debug"]
 os.environ.setdefault("MW_IMPL_CASE_BUDGET", "0.25")
+os.environ.setdefault("MW_MODEL_CASE_BUDGET", "1.5")
 
 MANIFEST = dict(
     text="Coq theorems (coq/Props/C06.v), for EVERY text: the scanner returns tokens or an error; the reader (scan + "
@@ -132,9 +132,9 @@ def generate(rng, tier):
         if per is None:
             for a in range(P):
                 calls.append("(%s %s)" % (name, PALETTE[a]))
-            for a in range(P):
-                for b in range(P):
-                    calls.append("(%s %s %s)" % (name, PALETTE[a], PALETTE[b]))
+            pairs = [(a, b) for a in range(P) for b in range(P)]
+            for a, b in rng.sample(pairs, 700):       # a quarter of the P*P pairs per builtin and run
+                calls.append("(%s %s %s)" % (name, PALETTE[a], PALETTE[b]))
             for k in (3, 4, 5):
                 for _ in range(40):
                     calls.append("(%s %s)" % (name, " ".join(rng.choice(PALETTE) for _ in range(k))))
